@@ -12,7 +12,7 @@ from typing import Dict, List, Optional, Set, Tuple
 from oqv import abseval as ae
 from oqv.astutil import branch_context, call_name, method_call
 from oqv.cfg import CFG
-from oqv.dataflow import DefUse, Def
+from oqv.dataflow import DefUse, Def, expand
 from oqv.model import AnalysisError, ClassInfo, Program, Unit, dotted, norm, walk_local
 from oqv.report import Check
 
@@ -695,12 +695,13 @@ def _unit_axes_only(new_shape: ast.AST, arr: str, du: DefUse, nid: int) -> Tuple
             else:
                 rest.append(p)
         if len(rest) == 1 and isinstance(rest[0], ast.List) and len(rest[0].elts) == 1:
-            n_expr = norm(rest[0].elts[0])
+            n_expr = norm(expand(du, nid, rest[0].elts[0]))
             ds = du.reaching(nid, arr)
             if ds and all(d.value is not None and isinstance(d.value, ast.Call)
                           and isinstance(d.value.func, ast.Attribute)
                           and d.value.func.attr == "reshape"
-                          and len(d.value.args) == 1 and norm(d.value.args[0]) == n_expr
+                          and len(d.value.args) == 1
+                          and norm(expand(du, d.node, d.value.args[0])) == n_expr
                           for d in ds):
                 return True, f"1-D array of length {n_expr} gets leading unit axes"
         return False, "shape expression is not [1]*k + [n] of a 1-D array of length n"
